@@ -327,7 +327,7 @@ func slice(i *interpreter, x, lo, hi, max value) value {
 func lookup(i *interpreter, instr *ssa.Lookup, x, idx value) value {
 	switch x := x.(type) { // map
 	case *gmap:
-		if itf, ok := idx.(iface); ok && itf.t != nil && !types.Comparable(itf.t) {
+		if itf, ok := idx.(iface); ok && itf.t != nil && !comparableType(itf.t) {
 			panic(i.rtPanic("hash of unhashable type " + itf.t.String()))
 		}
 		v, ok := x.lookup(i, idx)
